@@ -84,6 +84,9 @@ class NetworkService(ModelElement):
             super().__init__(name=name, node_id=node_id, topo=topo)
             if nstype is None:
                 raise TopologyException("When creating new services you must specify ServiceType")
+            # any iterable of interfaces will do; look at it before anything is written to the model
+            if interfaces is not None:
+                interfaces = list(interfaces)
 
             sliver = NetworkServiceSliver()
             sliver.node_id = self.node_id
